@@ -124,7 +124,6 @@ Fixpoint scope_dec (fuel : nat) (t : ty) : bool :=
       let ms := root ++ flat_additions ext in
       let tags := map (fun m => outer_tags e f (m_ty m)) ms in
       forallb (fun m => scope_dec f (m_ty m)) ms &&
-      forallb (fun tg => match tg with [] => false | _ => true end) tags &&
       (if isset then
          pairwise_disjoint tags && forallb (fun m => negb (greedy_choice f (m_ty m))) ms
        else
